@@ -5,6 +5,7 @@ CONSTANTS
   HasHf = FALSE
   Absent0 = {}
   Admin = FALSE
+  TrackRep = FALSE
   AlwaysW = FALSE
   AlwaysPRs = FALSE
   Cmds = {}
